@@ -21,6 +21,7 @@ import RefurbVerif.Model.Paths
 import RefurbVerif.Props.C09
 
 namespace RefurbVerif.C12
+open RefurbVerif.Paths
 
 /-! ### `is_relative_to` is a component-wise prefix test -/
 
